@@ -796,6 +796,8 @@ class SVal:
             b = ev(e.value)
             if isinstance(e.slice, ast.Slice):
                 s = e.slice
+                if s.lower is None and s.upper is None and s.step is None:
+                    return ('list', (('star', b),))       # x[:] is a fresh copy of x
                 return ('slice', b, ev(s.lower) if s.lower is not None else NONE, ev(s.upper) if s.upper is not None else NONE,
                         ev(s.step) if s.step is not None else NONE)
             return mk_index(b, ev(e.slice))
